@@ -634,3 +634,72 @@ func dedupBigCase(r *rand.Rand, enc string) *TrieCase {
 	}
 	return &TrieCase{Keys: ks, Enc: enc, Vals: vs}
 }
+
+// specialShapes: the shapes that seeded changes showed no random family reaches, for the
+// generators of every trie-based property (a change in the builder or the reader is reached
+// through lookups, scans, renderings, the index, the 16 modes alike): a 257-bit node
+// mimicking a popular 17-bit bitmap; 257-bit nodes thinned by de-duplication, some kept
+// full; a full 257-bit node at the root and below a byte; counts on word boundaries; a long
+// single-branch run in the upper half of the step counter; long leaf tails.
+// Values are distinct unless the shape needs them otherwise (dedupbig).
+type namedCase struct {
+	Name string
+	C    *TrieCase
+}
+
+func fullFanKeys(r *rand.Rand, below bool) []string {
+	keys := []string{}
+	pre := ""
+	if below {
+		pre = string([]byte{byte(r.Intn(256))})
+		for b := 0; b < 12; b++ {
+			keys = append(keys, string([]byte{byte(b * 21)}))
+		}
+	}
+	keys = append(keys, pre)
+	for b := 0; b < 256; b++ {
+		keys = append(keys, pre+string([]byte{byte(b)}))
+		if b%37 == 0 {
+			keys = append(keys, pre+string([]byte{byte(b), byte(r.Intn(256))}))
+		}
+	}
+	sort.Strings(keys)
+	return uniq(keys)
+}
+
+func specialShapes(r *rand.Rand, enc string, o4 [4]int, nBoundary int, seed int64) []namedCase {
+	out := []namedCase{}
+	distinct := func(keys []string) [][]byte {
+		if enc == "none" {
+			return nil
+		}
+		return valsFromPattern(enc, len(keys), 0, int64(r.Intn(100)))
+	}
+	c := bigMimicCase(r, enc)
+	if enc == "none" {
+		c.Vals = nil
+	}
+	out = append(out, namedCase{"special:bigmimic", c})
+	if enc != "none" {
+		out = append(out, namedCase{"special:dedupbig", dedupBigCase(r, enc)})
+	}
+	for i := 0; i < 2; i++ {
+		keys := fullFanKeys(r, i == 1)
+		out = append(out, namedCase{"special:full-257", &TrieCase{Keys: keys, Enc: enc, Vals: distinct(keys)}})
+	}
+	for i := 0; i < nBoundary; i++ {
+		fam := boundaryFamilies[r.Intn(len(boundaryFamilies))]
+		if keys := seekBoundary(r, fam, i+int(seed), o4); keys != nil {
+			out = append(out, namedCase{"special:boundary", &TrieCase{Keys: keys, Enc: enc, Vals: distinct(keys)}})
+		}
+	}
+	L := []int{0x8000, 0x8001, 0xc000, 0xfffe}[r.Intn(4)]
+	common := strings.Repeat(string([]byte{byte(r.Intn(256))}), L/2)
+	keys := []string{"\x00", common + "\x12", common + "\x87", common + "\x87\x01"}
+	sort.Strings(keys)
+	keys = uniq(keys)
+	out = append(out, namedCase{"special:longrun", &TrieCase{Keys: keys, Enc: enc, Vals: distinct(keys)}})
+	lt := genKeys(r, "longtail", 20, 0)
+	out = append(out, namedCase{"special:longtail", &TrieCase{Keys: lt, Enc: enc, Vals: distinct(lt)}})
+	return out
+}
